@@ -323,16 +323,35 @@ Qed.
 (* ================================================================== 6. subdivide_shard *)
 (* Reshard.subdivide / chunk_length are the arithmetic translated by translator/gen_chunk.py (gen/ChunkGen.v:
    g_sub_slice_sz, g_sub_chunk_length, g_sub_n_chunks, g_sub_start, g_sub_length) *)
+Lemma map_ext_in_upto {A} (f g : Z -> A) n m : n = m -> (forall i, f i = g i) -> map f (upto n) = map g (upto m).
+Proof. intros -> H. apply map_ext. exact H. Qed.
+
 Lemma chunk_length_gen (b : box) (dim : nat) (esize maxb : Z) :
   g_sub_chunk_length maxb (g_sub_slice_sz (prodZ (bsz b)) (nth dim (bsz b) 0) esize) = chunk_length b dim esize maxb.
 Proof. unfold g_sub_chunk_length, g_sub_slice_sz, chunk_length. first [reflexivity | f_equal; lia | lia]. Qed.
 
+(* one piece: the narrow starts at [start] and has the length recorded in the piece's sizes; offsets and sizes are
+   the shard's with position [dim] moved by [start] / set to [length] *)
+Lemma quad_eq {A B C D} (a a' : A) (b b' : B) (c c' : C) (d d' : D) :
+  a = a' -> b = b' -> c = c' -> d = d' -> ((a, b), (c, d)) = ((a', b'), (c', d')).
+Proof. congruence. Qed.
+
+Lemma upd_val_eq (l : list Z) k v v' : v = v' -> upd l k v = upd l k v'.
+Proof. intros ->. reflexivity. Qed.
+
+Lemma g_sub_piece_eq (offs szs : list Z) (dim : nat) (start len : Z) :
+  g_sub_piece offs szs dim start len = ((start, len), (upd offs dim (nth dim offs 0 + start), upd szs dim len)).
+Proof.
+  unfold g_sub_piece. cbv zeta.
+  apply quad_eq; first [ reflexivity | lia | apply upd_val_eq; lia ].
+Qed.
+
 Lemma subdivide_g_eq (b : box) (dim : nat) (esize maxb : Z) : subdivide_g b dim esize maxb = subdivide b dim esize maxb.
 Proof.
   unfold subdivide_g, subdivide, subdivide_with. cbv zeta. rewrite chunk_length_gen.
-  unfold g_sub_n_chunks, g_sub_start, g_sub_length.
-  first [ reflexivity
-        | apply map_ext; intros i; repeat f_equal; lia ].
+  apply map_ext_in_upto; [unfold g_sub_n_chunks; first [reflexivity | f_equal; lia]|]. intros i. rewrite g_sub_piece_eq. cbn [fst snd].
+  unfold g_sub_start, g_sub_length.
+  first [ reflexivity | repeat f_equal; lia ].
 Qed.
 
 Lemma write_shards_g_eq {E} dim esize maxb (locals : list (dshard E)) :
